@@ -217,6 +217,20 @@ def valueUpdRT (cfg : Cfg) (lib : Lib) (k : Kind) (om : Bool) (v1 v2 : Val) : Re
      | .ok _ => valueRT cfg lib k om v1)       -- the void write left the first value's content in place
   else valueRT cfg lib k om v2
 
+/-- a PROFILE field (one treasure per field) overwritten: `om` = omitempty, `del` = deletable.
+    An empty value under `deletable` deletes the treasure; under `omitempty` alone the field is skipped and the
+    stored treasure stays (documented: use `deletable` to remove); otherwise it is written like a catalog value. -/
+def profileUpdRT (cfg : Cfg) (lib : Lib) (k : Kind) (om del : Bool) (v1 v2 : Val) : Res :=
+  if isEmpty cfg k v2 && del then
+    (match valueRT cfg lib k false v1 with
+     | .err => .err
+     | .ok _ => .ok (zero k))
+  else if isEmpty cfg k v2 && om then
+    (match valueRT cfg lib k false v2 with
+     | .err => .err
+     | .ok _ => valueRT cfg lib k (om && false) v1)
+  else valueUpdRT cfg lib k false v1 v2
+
 /-! ### map-body slot -/
 
 /-- CatalogSave + CatalogRead of a map-body model for one body field of kind `k` -/
